@@ -276,16 +276,57 @@ def method_body(src, qualified):
     return src[m.end():i - 1]
 
 
+SESSION_KNOWN = ('createChannel', 'setChannelWriterId', 'setChannelWriterName', 'addEventSource', 'setClockSync', 'consume',
+                 'reconsumeMetadata', 'minSeverity', 'setMinSeverity', 'consumeSpecialEntry')
+SESSION_OTHER = ('Session', 'Channel::Channel', 'Channel::~Channel', 'Channel::queue', 'appendSpecialEntry')
+
+
+def session_helpers(sess):
+    """member functions of Session defined in the header that are neither modelled methods nor constructors: private helpers.
+    A helper must be called from a modelled method (it is then inlined at the call, so that extracting a few lines of `consume`
+    into a helper changes nothing); a function nobody modelled calls is a new entry point the model does not know."""
+    names = sorted(set(re.findall(r'\bSession::(~?\w+(?:::~?\w+)?)\s*\(', sess)))
+    helpers = [n for n in names if n not in SESSION_KNOWN and n not in SESSION_OTHER]
+    called = set()
+    frontier = list(SESSION_KNOWN)
+    while frontier:
+        raw = method_body(sess, 'Session::' + frontier.pop())
+        for h in helpers:
+            if h not in called and re.search(r'(?<![\w:.>])%s\s*\(' % re.escape(h), raw):
+                called.add(h)
+                frontier.append(h)
+    unknown = [h for h in helpers if h not in called]
+    if unknown:
+        raise ExtractError('Session has member functions the model does not know and no modelled method calls: %s' % unknown)
+    return helpers
+
+
+def session_method_body(sess, name, helpers=None, depth=0):
+    body = method_body(sess, 'Session::' + name)
+    if helpers is None:
+        helpers = session_helpers(sess)
+    if depth > 3:
+        return body
+    for h in helpers:
+        if h == name:
+            continue
+        pat = re.compile(r'(?<![\w:.>])%s\s*\((?:[^;{}()]|\([^()]*\))*\)\s*;' % re.escape(h))
+        if pat.search(body):
+            hb = session_method_body(sess, h, [x for x in helpers if x != h], depth + 1)
+            body = pat.sub(lambda m: '{' + hb + '}', body)
+    return body
+
+
 def gen_session():
     sess = strip_comments(read('include/binlog/Session.hpp'))
     locked = []
     for name in ('createChannel', 'setChannelWriterId', 'setChannelWriterName', 'addEventSource', 'setClockSync', 'consume',
                  'reconsumeMetadata', 'minSeverity', 'setMinSeverity', 'consumeSpecialEntry'):
-        body = method_body(sess, 'Session::' + name)
+        body = session_method_body(sess, name)
         first = body.strip().split(';')[0]
         if re.match(r'std::lock_guard<std::mutex>\s*\w+\(_mutex\)', first.strip()):
             locked.append(name)
-    consume = method_body(sess, 'Session::consume')
+    consume = session_method_body(sess, 'consume')
     iu = consume.find('use_count()')
     ir = consume.find('beginRead()')
     if iu < 0 or ir < 0:
@@ -414,14 +455,14 @@ def gen_locks():
     locked = {}
     for name in ('createChannel', 'setChannelWriterId', 'setChannelWriterName', 'addEventSource', 'setClockSync', 'consume',
                  'reconsumeMetadata', 'consumeSpecialEntry', 'minSeverity', 'setMinSeverity'):
-        body = method_body(sess, 'Session::' + name)
+        body = session_method_body(sess, name)
         first = body.strip().split(';')[0].strip()
         is_locked = bool(re.match(r'std::lock_guard<std::mutex>\s*\w+\(_mutex\)', first))
         # consumeSpecialEntry is private and only called from consume (checked), hence under the lock
         if name == 'consumeSpecialEntry':
             callers = [n for n in ('createChannel', 'setChannelWriterId', 'setChannelWriterName', 'addEventSource', 'setClockSync',
                                    'consume', 'reconsumeMetadata', 'minSeverity', 'setMinSeverity')
-                       if 'consumeSpecialEntry(' in method_body(sess, 'Session::' + n)]
+                       if 'consumeSpecialEntry(' in session_method_body(sess, n)]
             is_locked = callers == ['consume']
         locked[name] = is_locked
         for m in members:
